@@ -273,7 +273,15 @@ func (s *Spec) Step(ctx context.Context, st *State, pending interface{}, c *Cont
 		// Gather the permanent bindings before the action runs: a
 		// native action can edit the bindings it is given in place.
 		permanent := permanentBindings(bs)
-		e, err = n.Action.Exec(ctx, bs, props)
+		// Hand the action its own (shallow) copy: st is the caller's
+		// -- in a Walk the state from which an error state is made
+		// when this step fails -- and a native action can edit the
+		// bindings it is given in place.
+		given := bs
+		if given != nil {
+			given = given.Copy()
+		}
+		e, err = n.Action.Exec(ctx, given, props)
 		if e != nil {
 			stride.AddEvents(e.Events)
 			if e.Bs == nil {
